@@ -102,6 +102,8 @@ class SqliteStorage(AbstractStorage):
             from aw_datastore import check_for_migration  # fmt: skip
 
             check_for_migration(self)
+            # Make the migrated data durable before the commit bookkeeping below starts from zero
+            self.commit()
 
         self.last_commit = datetime.now()
         self.num_uncommitted_statements = 0
